@@ -1,7 +1,7 @@
 """C09 — the deps log survives torn writes, restarts and compaction (DESIGN 5.9)."""
 from facts import AnalysisBroken
 from model import (dstr, strip, fact_holds, mentions_field, mentions_call, mentions_var,
-                   const_value, walk)
+                   const_value, walk, norm_cond, _split_composite)
 from rules import (guarded, calls_to, field_writes, who_may_write, full_range, loops_over,
                    every_iteration_passes, basename, origins, is_var, is_enum, lastname,
                    dominated_by, reject_if, must_pass, deep_resolve, skip_conditions_exact,
@@ -403,10 +403,40 @@ def run(ctx):
         ctx.check('C09.W1', bool(cl) and any(rp.dominates_ev(e, rep[0]) for e in cl), rp.name, 'Recompact:replace-before-close', rp.loc,
                   'the new log is closed before it replaces the old one')
     live = prog.fn('DepsLog::IsDepsEntryLiveFor')
-    rets = list(live.events('ret'))
-    s = dstr(rets[0].get('e')) if rets else ''
-    ctx.check('C09.W1', len(rets) == 1 and 'Node::in_edge' in s and '"deps"' in s and 'empty()' in s, live.name, 'live:definition', live.loc,
-              'an entry is live iff its node has a producer with a non-empty deps binding: %s' % s[:100])
+    # every return of the predicate: true exactly under (producer present, deps binding not empty), stated over the
+    # guard facts of the return and the conjuncts of a returned expression
+    def kind(atom):
+        a = dstr(deep_resolve(live, atom))
+        if '"deps"' in a and 'GetBinding' in a and 'empty()' in a:
+            return 'empty'
+        if ('Node::in_edge' in a) and 'GetBinding' not in a:
+            return 'producer'
+        return None
+    for e in live.events('ret'):
+        known = []          # (kind, polarity, text)
+        for k, (pol, atom) in live.facts_at(e).items():
+            if isinstance(strip(atom), dict) and strip(atom).get('k') == 'var' and live.single_def(strip(atom)['n']) is not None:
+                continue    # a named local: its initialiser is among the facts as well
+            known.append((kind(atom), pol, k))
+        v = const_value(e.get('e'))
+        conj = []
+        if v is None:
+            at, pol = norm_cond(prog, deep_resolve(live, e.get('e')))
+            parts = _split_composite(prog, at, pol) or [(dstr(at), pol, at)]
+            conj = [(kind(a3), p3, k3) for k3, p3, a3 in parts]
+        allk = known + conj
+        extra = [t for kd, p, t in allk if kd is None]
+        pos = {kd for kd, p, t in allk if (kd == 'producer' and p) or (kd == 'empty' and not p)}
+        neg = {kd for kd, p, t in known if (kd == 'producer' and not p) or (kd == 'empty' and p)}
+        if v is None:
+            ok = not extra and not neg and pos == {'producer', 'empty'}
+        elif v:
+            ok = not extra and not neg and pos == {'producer', 'empty'}
+        else:
+            ok = not extra and bool(neg)
+        ctx.check('C09.W1', ok, live.name, 'live:definition', live.where(e),
+                  'an entry is live iff its node has a producer with a non-empty deps binding: `%s` under %s' %
+                  ((e.get('src') or '')[:80], sorted(t for kd, p, t in known)))
     ctx.floor('C09.W1', 10)
 
 
